@@ -23,7 +23,7 @@ CLASSES = ["mixed", "row-conflict", "same-address", "bank-sweep", "streams", "co
 def cases(tier, seed):
     n = 56 if tier == "quick" else 480
     out = []
-    fams = ["SDR1", "SDR2", "DDR2x", "DDR3x4", "LPDDR", "DDR3x2", "DDR4x4", "SDR1"]
+    fams = ["SDR1", "SDR2", "DDR2x", "DDR3x4", "LPDDR", "DDR3x2", "DDR4x4", "SDR1", "LPDDR4x8", "LPDDR5x1", "DDR2x"]
     for k in range(n):
         r = random.Random("C02/%d/%s/%d" % (seed, tier, k))
         if k % 8 == 7:
